@@ -17,7 +17,7 @@ import (
 func init() { register("C09", genC09) }
 
 type c09Desc struct {
-	Rt      string   `json:"runtime"`    // exitsOnTerm | ignoresTerm | alreadyExited | neverStarted
+	Rt      string   `json:"runtime"`    // exitsOnTerm | ignoresTerm | alreadyExited | neverStarted | launchFail
 	Exts    []string `json:"extensions"` // subExits | subIgnores | subNotPolling | subLatePoll | unsub | alreadyExited | launchFail | neverRegisters
 	Trigger string   `json:"trigger"`    // timeout | failure | explicit | shutdown
 	Allowed int64    `json:"allowed_ms"`
@@ -83,6 +83,12 @@ func genC09(tier string, seed int64) []Case {
 		add(c09Desc{Rt: "neverStarted", Exts: es, Trigger: "timeout", Allowed: 2000})
 		add(c09Desc{Rt: "neverStarted", Exts: es, Trigger: "explicit", Allowed: 500})
 	}
+	// the runtime cannot be launched: nothing may be signalled that was never started, nothing waited for
+	for _, es := range [][]string{{}, {"subExits"}, {"subIgnores"}, {"unsub"}, {"subExits", "unsub"}} {
+		add(c09Desc{Rt: "launchFail", Exts: es, Trigger: "failure", Allowed: 2000})
+		add(c09Desc{Rt: "launchFail", Exts: es, Trigger: "explicit", Allowed: 800})
+		add(c09Desc{Rt: "launchFail", Exts: es, Trigger: "shutdown", Allowed: 1200})
+	}
 	// failure reset: runtime or an extension crashes during an invocation, or fails to launch
 	for _, es := range extSets([]string{"subExits", "subIgnores", "unsub"}, 2) {
 		n++
@@ -131,6 +137,9 @@ func runC09(c *Ctx, d c09Desc) {
 	w.RtPlan = func(gen int, p *vh.Proc) vh.ExecPlan {
 		if gen != 1 {
 			return vh.ExecPlan{Behave: w.RtLoop(RtOpts{})}
+		}
+		if d.Rt == "launchFail" {
+			return vh.ExecPlan{Fail: errors.New("fork/exec /var/runtime/bootstrap: exec format error")}
 		}
 		o := RtOpts{IgnoreTerm: d.Rt == "ignoresTerm"}
 		o.Handle = func(p *vh.Proc, pt *vh.Party, n int, ev *vh.Resp) *vh.Exit {
@@ -261,7 +270,7 @@ func runC09(c *Ctx, d c09Desc) {
 	}
 
 	w.E.Init()
-	initWillComplete := d.Rt != "neverStarted"
+	initWillComplete := d.Rt != "neverStarted" && d.Rt != "launchFail"
 	for _, k := range d.Exts {
 		if k == "launchFail" || k == "neverRegisters" {
 			initWillComplete = false
@@ -345,6 +354,10 @@ func runC09(c *Ctx, d c09Desc) {
 				tCall = inv.CallT.Add(time.Duration(e.T)*time.Microsecond - w.E.Log.Now() + time.Since(inv.CallT))
 			}
 		}
+		if trigSeq == 0 && (contains(d.Exts, "launchFail") || d.Rt == "launchFail") {
+			// a launch failure ends the invocation through the init-failure shutdown; everything from the invoke on is evaluated
+			trigSeq = inv.CallSeq
+		}
 		if trigSeq == 0 {
 			c.Inconclusive("reset trigger point not observed")
 			return
@@ -365,7 +378,7 @@ func runC09(c *Ctx, d c09Desc) {
 	// the choreography is the LAST shutdown sequence after the trigger; for the launch-failure path an
 	// explicit Shutdown (2 s allowance) precedes the reset: evaluate from the trigger on
 	after := func(e vh.Event) bool { return e.Seq > trigSeq && e.Seq < retSeq }
-	if d.Trigger == "failure" && contains(d.Exts, "launchFail") {
+	if d.Trigger == "failure" && (contains(d.Exts, "launchFail") || d.Rt == "launchFail") {
 		// init failed: the front door SHUTS the environment DOWN (reason "spindown", fixed 2 s allowance)
 		// before the reset finds nothing left; take everything from the invoke on
 		after = func(e vh.Event) bool { return e.Seq > inv.CallSeq && e.Seq < retSeq }
@@ -397,7 +410,7 @@ func runC09(c *Ctx, d c09Desc) {
 
 	// ---- runtime ----
 	if rtProc == nil {
-		c.Check(d.Rt == "neverStarted" || contains(d.Exts, "launchFail"), "runtime_not_started_consistent", "C09/harness-runtime-missing", "runtime process missing", nil)
+		c.Check(d.Rt == "neverStarted" || d.Rt == "launchFail" || contains(d.Exts, "launchFail"), "runtime_not_started_consistent", "C09/harness-runtime-missing", "runtime process missing", nil)
 		c.Check(len(vh.Filter(sup, func(e vh.Event) bool { return strings.HasPrefix(e.Op, "runtime-") && (e.Kind == "term" || e.Kind == "kill") })) == 0,
 			"no_signal_to_unstarted_runtime", "C09/signal-to-unstarted-runtime", "a runtime that was never started was terminated or killed", nil)
 	} else {
